@@ -28,11 +28,14 @@ def display_method(F, name):
     return one(F.inherent_method(DISPLAY, name), "Display::" + name)
 
 
-def display_methods(F):
-    """all inherent + DrawTarget methods of Display that take &mut self"""
+def display_methods(F, public_only=False):
+    """all inherent + DrawTarget methods of Display that take &mut self (public_only: what a user can call -
+    private helpers are then covered through the public methods that call them, where they are inlined)"""
     out = []
     for b in F.bodies.values():
         c = b["container"]
+        if public_only and c.get("kind") == "inherent_impl" and not b.get("public", True):
+            continue
         st = c.get("self_ty") or {}
         if b["kind"] != "AssocFn" or st.get("k") != "adt" or st.get("def") != DISPLAY:
             continue
@@ -92,6 +95,39 @@ def outcome_cond(o, only=None):
             continue
         c = c * (p if val else (ONE - p))
     return c
+
+
+def decide_atoms(f, p, rounds=2):
+    """replace the comparison atoms of p that the path facts decide (by entailment) by their value"""
+    from poly import is_bool_atom
+    for _ in range(rounds):
+        p = f.simplify(p)
+        sub = {}
+        for a in p.atoms():
+            if is_bool_atom(a) and a[0] in ("ge", "eq"):
+                if f.implied_false(Poly.atom(a)):
+                    sub[a] = 0
+                elif f.implied_false(ONE - Poly.atom(a)):
+                    sub[a] = 1
+        if not sub:
+            break
+        p = p.subst(sub)
+    return p
+
+
+def equal_under(f, conds, a, b):
+    """a == b on the path described by facts f and the extra 0/1 conditions conds (semantic: comparison atoms are
+    decided by entailment, the rest by a two-sided entailment of a - b)"""
+    f2 = f.copy()
+    for c in conds:
+        if c.const_value() == 1:
+            continue
+        if not f2.assume(c, 1):
+            return True          # the path does not exist
+    d = decide_atoms(f2, a - b)
+    if d.const_value() == 0:
+        return True
+    return f2.entails_ge0(d, use_eq=True) is not None and f2.entails_ge0(-d, use_eq=True) is not None
 
 
 def result_variant(v):
